@@ -29,12 +29,7 @@ fn empty_record_set() -> RecordSet {
 
 // ------------------------------------------------------------------ C17.a field codec
 /// parse_field_value(bytes) -> write_value reproduces the bytes (Bool: canonical 0/1) and writes size() bytes
-#[kani::proof]
-#[kani::unwind(6)]
-#[kani::stub(std::fmt::format, vio::fmt_stub)]
-#[kani::stub(std::hash::RandomState::new, rs_stub)]
-fn c17a_field_codec() {
-    let ft = field_type_any();
+fn field_codec(ft: FieldType) {
     let b: [u8; 4] = kani::any();
     let mut src = Src::<4>::new(b, 4);
     let r = parse_field_value(&mut src, ft);
@@ -43,16 +38,10 @@ fn c17a_field_codec() {
     assert!(src.pos == ft.size(), "field reader consumed a size different from FieldType::size()");
     let rs = empty_record_set();
     let offsets: HashMap<String, u32> = HashMap::new();
-    if matches!(ft, FieldType::String) {
-        // string references are resolved through the string block; covered by c17c
-        std::mem::forget((v, rs, offsets));
-        return;
-    }
     let mut w = DbcWriter::new(Sink::<8>::new());
     let wr = w.write_value(&v, ft, &rs, &offsets);
     assert!(wr.is_ok(), "value parsed for a field type is rejected by the writer for the same type");
-    kani::cover!(w.writer.pos == 1);
-    kani::cover!(w.writer.pos == 4);
+    kani::cover!(w.writer.pos == ft.size());
     assert!(w.writer.pos == ft.size(), "field writer produced a size different from FieldType::size()");
     let i: usize = kani::any();
     kani::assume(i < ft.size());
@@ -62,8 +51,25 @@ fn c17a_field_codec() {
     } else {
         assert!(w.writer.buf[i] == b[i], "write_value(parse_field_value(b)) != b");
     }
-    std::mem::forget((v, rs, offsets, w));
+    std::mem::forget((v, rs, offsets, w, wr));
 }
+macro_rules! codec_harness {
+    ($name:ident, $ft:expr) => {
+        #[kani::proof]
+        #[kani::unwind(6)]
+        #[kani::stub(std::fmt::format, vio::fmt_stub)]
+        #[kani::stub(std::hash::RandomState::new, rs_stub)]
+        fn $name() { field_codec($ft) }
+    };
+}
+codec_harness!(c17a_field_codec_int32, FieldType::Int32);
+codec_harness!(c17a_field_codec_uint32, FieldType::UInt32);
+codec_harness!(c17a_field_codec_float32, FieldType::Float32);
+codec_harness!(c17a_field_codec_bool, FieldType::Bool);
+codec_harness!(c17a_field_codec_uint8, FieldType::UInt8);
+codec_harness!(c17a_field_codec_int8, FieldType::Int8);
+codec_harness!(c17a_field_codec_uint16, FieldType::UInt16);
+codec_harness!(c17a_field_codec_int16, FieldType::Int16);
 
 // ------------------------------------------------------------------ C17.b header the writer emits is accepted with the same schema
 fn schema_any(nfields: usize) -> Schema {
@@ -192,7 +198,8 @@ fn c05_dbc_string_block_total() {
     if let Ok(s) = &r {
         assert!(s.len() <= 5 - off as usize);
     }
-    std::mem::forget((r, sb));
+    std::mem::forget(r);
+    std::mem::forget(sb);
 }
 
 #[kani::proof]
